@@ -41,3 +41,21 @@ Fixpoint col_run (size : option nat) (st : colstore) (ops : list colop) : list (
               let (outs, stf) := col_run size st' t in (out :: outs, stf)
   end.
 End Request.
+
+(* the same request while other threads use the two stores: [env n] acts before the n-th store access of this call *)
+Section Concurrent.
+Variables req deq : nhash -> nhash -> bool.
+Variable keq : val -> val -> bool.
+Variable sorted : list val -> list val.
+Variable get_hash : nat -> val -> option nhash.
+Variable get_value : nat -> val -> option val.
+Variable env : nat -> colstore -> colstore.
+Definition column_request_i (col : nat) (size : option nat) (key : val) (keys : list val) (st : colstore)
+  : cres * colstore * list cevent :=
+  match get_hash col key with
+  | None => (CErr (EUser "get_hash"), st, [CHash col key])
+  | Some out =>
+      let '(r, st', ev) := column_evaluate_i req deq keq sorted get_hash get_value env col size out key keys st in
+      (r, st', CHash col key :: ev)
+  end.
+End Concurrent.
